@@ -98,6 +98,13 @@ Section Engine.
     flat_map (fun s => flat_map (fun m => match m_type m with Shapesys => [m_name m] | _ => [] end) (s_mods s)) all_samples.
   Fixpoint has_dup (l : list string) : bool :=
     match l with [] => false | x :: t => existsb (String.eqb x) t || has_dup t end.
+  Fixpoint has_dup_pair (l : list (string * string)) : bool :=
+    match l with [] => false | x :: t => existsb (pair_eqb x) t || has_dup_pair t end.
+  (* two channels with one name, two samples with one name in a channel, one type/name key twice on a sample *)
+  Definition listing_dups : bool :=
+    has_dup (map c_name (channels sp))
+    || existsb (fun c => has_dup (map s_name (c_samples c))) (channels sp)
+    || existsb (fun s => has_dup_pair (map mkey (s_mods s))) all_samples.
 
   (* ------------------------------------------------------------------ step 3: nominal builder *)
   Definition nomf (cn sn : string) (b : nat) : V :=
@@ -115,12 +122,10 @@ Section Engine.
   Definition mdhi (m : modifier) : list V := match m_data m with MDHisto _ hi => hi | _ => [] end.
   Definition mdnlo (m : modifier) : V := match m_data m with MDNorm lo _ => lo | _ => 1 end.
   Definition mdnhi (m : modifier) : V := match m_data m with MDNorm _ hi => hi | _ => 1 end.
-  (* total lengths compared by the builders' finalize (data concatenated over channels) *)
-  Definition nom_len (sn : string) : nat := fold_right Nat.add O (map nbins chs).
-  Definition data_len (f : modifier -> list V) (k : string * string) (sn : string) : nat :=
-    fold_right Nat.add O (map (fun cn => match cellmod cn sn k with Some m => length (f m) | None => nbins cn end) chs).
+  (* the builders' finalize compares the lengths channel by channel *)
   Definition lengths_ok (t : mtype) (f : modifier -> list V) : bool :=
-    forallb (fun k => forallb (fun sn => Nat.eqb (data_len f k sn) (nom_len sn)) smps) (mods_of t).
+    forallb (fun k => forallb (fun sn => forallb (fun cn =>
+       match cellmod cn sn k with Some m => Nat.eqb (length (f m)) (nbins cn) | None => true end) chs) smps) (mods_of t).
 
   (* ------------------------------------------------------------------ required paramsets *)
   Record req := { r_type : ptype; r_n : nat; r_scalar : bool;
@@ -189,9 +194,13 @@ Section Engine.
     | Some s0 => flat_map (fun p => if declared (fst p) s0 k then [stat_relvar k (fst p) (snd p)] else []) gpos
     | None => [] end.
 
+  Definition sf_sizes (name : string) : list nat :=
+    nodup Nat.eq_dec (flat_map (fun d => if String.eqb (fst d) name then
+        [match cell (fst (fst (snd d))) (snd (fst (snd d))) with Some s => length (s_data s) | None => O end] else []) (walk_decls Shapefactor)).
   Definition required (t : mtype) : list (string * list req) :=
     match t with
     | Staterror => map (fun k => (fst k, [req_staterror (stat_vars k)])) (mods_of Staterror)
+    | Shapefactor => map (fun d => (fst d, map req_shapefactor (sf_sizes (fst d)))) (first_decls Shapefactor)
     | _ => map (fun d => let '(name, (cn, sn, m)) := d in
                          (name, [match t with
                                  | Histosys | Normsys => req_alpha
@@ -222,12 +231,12 @@ Section Engine.
   Definition agree {A} (eqb : A -> A -> bool) (l : list A) : bool :=
     match l with [] => true | x :: t => forallb (eqb x) t end.
   (* one key: default value d (already known unique), user value u *)
-  Definition user_merge {A} (d : optv (list A)) (u : option (list A)) : result (optv (list A)) :=
+  Definition user_merge {A} (n : nat) (d : optv (list A)) (u : option (list A)) : result (optv (list A)) :=
     match u with
-    | None => Ok d
+    | None => match d with PyNone => Err EInvalidModel | _ => Ok d end     (* a property without default must be configured *)
     | Some l => match d with
                 | Undef => Err EInvalidModel            (* both branches of the code end in InvalidModel *)
-                | PyNone => Ok (Val l)                   (* default None is falsy: no length check *)
+                | PyNone => if Nat.eqb (length l) n then Ok (Val l) else Err EInvalidModel
                 | Val dl => match dl with
                             | [] => Ok (Val l)
                             | _ => if Nat.eqb (length l) (length dl) then Ok (Val l) else Err EInvalidModel
@@ -251,15 +260,15 @@ Section Engine.
       if negb (agree Nat.eqb (map r_n rs)) then Err EInvalidNameReuse else
       if negb (agree Bool.eqb (map r_scalar rs)) then Err EInvalidNameReuse else
       if negb (agree (optv_eqb (list_eqb veqb)) (map r_inits rs)) then Err EInvalidNameReuse else
-      do inits <- user_merge (r_inits r0) (usr u pc_inits);
+      do inits <- user_merge (r_n r0) (r_inits r0) (usr u pc_inits);
       if negb (agree (optv_eqb (list_eqb vv_eqb)) (map r_bounds rs)) then Err EInvalidNameReuse else
-      do bounds <- user_merge (r_bounds r0) (usr u pc_bounds);
+      do bounds <- user_merge (r_n r0) (r_bounds r0) (usr u pc_bounds);
       if negb (agree (optv_eqb (list_eqb veqb)) (map r_aux rs)) then Err EInvalidNameReuse else
-      do aux <- user_merge (r_aux r0) (usr u pc_auxdata);
+      do aux <- user_merge (r_n r0) (r_aux r0) (usr u pc_auxdata);
       if negb (agree (optv_eqb (list_eqb veqb)) (map r_factors rs)) then Err EInvalidNameReuse else
-      do factors <- user_merge (r_factors r0) (usr u pc_factors);
+      do factors <- user_merge (r_n r0) (r_factors r0) (usr u pc_factors);
       if negb (agree (optv_eqb (list_eqb veqb)) (map r_var rs)) then Err EInvalidNameReuse else
-      do var <- user_merge (r_var r0) (option_map (map (fun s => s * s)) (usr u pc_sigmas));
+      do var <- user_merge (r_n r0) (r_var r0) (option_map (map (fun s => s * s)) (usr u pc_sigmas));
       if negb (agree fixedv_eqb (map r_fixed rs)) then Err EInvalidNameReuse else
       let fixed := match usr u pc_fixed with Some b => FBool b | None => r_fixed r0 end in
       Ok {| p_name := name; p_type := r_type r0; p_n := r_n r0; p_scalar := r_scalar r0;
@@ -323,6 +332,7 @@ Section Engine.
     end.
 
   Definition build_hot : result model :=
+    if listing_dups then Err EInvalidModel else
     if has_dup shapesys_names_listed then Err EInvalidModel else
     if negb nominal_lengths_ok then Err EInvalidModel else
     if negb (lengths_ok Histosys mdlo && lengths_ok Histosys mdhi) then Err EInvalidModifier else
@@ -330,7 +340,7 @@ Section Engine.
     if negb (lengths_ok Staterror mdlist) then Err EInvalidModifier else
     if negb (forallb (fun k => match first_carrier k with Some _ => true | None => false end) (mods_of Staterror))
       then Err (EPy "KeyError") else
-    if negb (forallb stat_masks_consistent (mods_of Staterror)) then Err (EPy "AssertionError") else
+    if negb (forallb stat_masks_consistent (mods_of Staterror)) then Err EInvalidModifier else
     if user_dups then Err EInvalidModel else
     do ps <- reduce_all required_all 0;
     do _ <- check_all pset_create_ok ps;
